@@ -30,6 +30,10 @@ pub fn templates() -> Vec<(&'static str, &'static str)> {
         ("having", "SELECT t.status AS s, COUNT(*) AS n FROM orders AS t GROUP BY t.status HAVING COUNT(*) > {k}"),
         ("having-sum", "SELECT t.user_id AS u, SUM(t.amount) AS s FROM orders AS t GROUP BY t.user_id HAVING SUM(t.amount) > {k}0"),
         ("distinct", "SELECT DISTINCT t.city AS c, t.age AS a FROM users AS t"),
+        ("min-of-text-column", "SELECT MIN(t.status) AS lo, MAX(t.status) AS hi FROM orders AS t"),
+        // DISTINCT above an aggregation whose key is not selected: groups with equal aggregates collapse
+        ("distinct-over-grouped-aggregates", "SELECT DISTINCT COUNT(*) AS n FROM orders AS t GROUP BY t.user_id"),
+        ("distinct-over-grouped-aggregates-two", "SELECT DISTINCT COUNT(t.id) AS n, MAX(t.amount) AS s FROM orders AS t WHERE t.amount > {k} GROUP BY t.user_id"),
         ("distinct-one", "SELECT DISTINCT t.status AS s FROM orders AS t WHERE t.amount > {k}"),
         ("cte", "WITH w AS (SELECT t.id AS i, t.age AS a FROM users AS t WHERE t.age > {k}0) SELECT w.a AS a, o.amount AS m FROM w JOIN orders AS o ON w.i = o.user_id"),
         ("cte-two", "WITH w AS (SELECT t.user_id AS u, SUM(t.amount) AS s FROM orders AS t GROUP BY t.user_id), v AS (SELECT w.u AS u FROM w WHERE w.s > {k}0) SELECT u.age AS a FROM users AS u JOIN v ON u.id = v.u"),
